@@ -60,6 +60,33 @@ var c14Scenarios = [][]c14Op{
 	// scenario 12 (with the job parameter values=N): two MultipleMatch calls on a text that contains
 	// ALL N extra known values - the library fans out one goroutine per value and more per candidate
 	{{"MM", "@ALL", ""}, {"MM", "@ALL", ""}},
+	// scenario 13: two MultipleMatch calls on DIFFERENT texts of more than 4 KB each (sizes above
+	// whatever the library may treat specially); with c14Reprobe every query is repeated after the join
+	{{"MM", "@BIGA", ""}, {"MM", "@BIGB", ""}},
+	{{"MM", "@BIGA", ""}, {"NM", "@BIGB", ""}, {"MM", "@BIGB", ""}},
+}
+
+// c14Reprobe (job parameter reprobe=yes, always for the big-text scenarios): after the concurrent
+// calls have returned, every query is run once more on the same classifier and is part of the
+// joint outcome (what a poisoned cache would answer from then on).
+var c14Reprobe bool
+
+func c14BigText(which string) string {
+	var sb strings.Builder
+	if which == "@BIGA" {
+		sb.WriteString("intro the quick brown fax and ")
+	} else {
+		sb.WriteString("lazy dog jumped over ")
+	}
+	for k := 0; sb.Len() < 4600; k++ {
+		fmt.Fprintf(&sb, "f%c%c%c%s ", 'a'+k%26, 'a'+(k/26)%26, 'a'+(k/676)%26, which[4:])
+	}
+	if which == "@BIGA" {
+		sb.WriteString("lazy dog jumps")
+	} else {
+		sb.WriteString("the quick brown fox")
+	}
+	return sb.String()
 }
 
 // c14Extra: number of additional known values "va<i> vb<i> vc<i>" (job parameter values=N).
@@ -106,6 +133,13 @@ func c14Probe(cl *Classifier, ops []c14Op) string {
 			out = append(out, "probe("+o.arg+")="+fmtMatch(cl.NearestMatch(o.arg)))
 		}
 	}
+	if c14Reprobe {
+		for _, o := range ops {
+			if o.kind != "ADD" {
+				out = append(out, "again:"+o.run(cl))
+			}
+		}
+	}
 	return strings.Join(out, ",")
 }
 
@@ -128,6 +162,9 @@ func c14Build(precomputed bool) *Classifier {
 func (o c14Op) run(cl *Classifier) string {
 	if o.arg == "@ALL" {
 		o.arg = c14AllText()
+	}
+	if strings.HasPrefix(o.arg, "@BIG") {
+		o.arg = c14BigText(o.arg)
 	}
 	switch o.kind {
 	case "MM":
@@ -181,6 +218,7 @@ func c14Sched(c *vrep.Ctx) {
 	c14Extra = c.ParamInt("values", 0)
 	c14ValueBytes = c.ParamInt("valuebytes", 0)
 	ops := c14Scenarios[sc%len(c14Scenarios)]
+	c14Reprobe = c.Param("reprobe", "no") == "yes" || sc%len(c14Scenarios) >= 13
 	precomputed := c.Param("precomputed", "no") == "yes"
 	budget := c.ParamInt("budget", c.Pick(3, 5))
 	pol := vsync.Delay
